@@ -17,6 +17,7 @@ neighbour index read is `< n` (otherwise numpy raises).
 import Model.Regularization
 import Proofs.Regularization
 import Proofs.RegularizationSplit
+import Proofs.RegularizationSplitFrom
 import Proofs.RegularizationKernel
 import Proofs.RegularizationBlock
 import Mathlib.Analysis.Real.Sqrt
@@ -247,6 +248,63 @@ theorem split_schemes_unfold (env : Impl.Env α) (c inner outer : α) (o : Impl.
             (Impl.schemeWeights (.adaptiveBrightnessSplit inner outer) o) o.split :=
   ⟨rfl, rfl⟩
 
+/-- (d) scheme level: whenever `reg_split_from` returns tables (no exception) whose rows are in range
+    and distinct, the split-cross class returns the symmetric positive-definite matrix above -/
+theorem split_scheme_posdef (ρ2 : α) (hρ : 0 < ρ2) (ω : List α) (t t' : Impl.SplitTables α)
+    (hok : Impl.regSplitFrom t = .ok t')
+    (hR : SplitInRange (t'.mappings.length / 4) (pyTable (t'.mappings.length / 4) t'.mappings) t'.sizes)
+    (hD : SplitDistinct (t'.mappings.length / 4) (pyTable (t'.mappings.length / 4) t'.mappings) t'.sizes) :
+    ∃ H, Impl.splitSchemeMatrix ρ2 ω t = .ok H
+      ∧ Dims (t'.mappings.length / 4) H
+      ∧ (∀ a b, entry H a b = entry H b a)
+      ∧ ∀ x : List α, x.length = t'.mappings.length / 4 →
+          (∃ i, i < t'.mappings.length / 4 ∧ x.getD i 0 ≠ 0) → 0 < quad H x := by
+  have hlen : (pyTable (t'.mappings.length / 4) t'.mappings).length = t'.mappings.length := by
+    simp [pyTable]
+  refine ⟨Impl.pixelSplittedMatrix ρ2 ω (pyTable (t'.mappings.length / 4) t'.mappings) t'.sizes
+    t'.weights, by simp only [Impl.splitSchemeMatrix, hok], ?_, ?_, ?_⟩
+  · exact pixelSplittedMatrix_dims ρ2 ω _ _ _ (by rw [hlen]) hR
+  · intro a b
+    exact pixelSplittedMatrix_symm ρ2 ω _ _ _ (by rw [hlen]) hR a b
+  · intro x hx hx0
+    exact pixelSplittedMatrix_posdef ρ2 hρ ω _ _ _ (by rw [hlen]) hR hD x hx hx0
+
+/-- (d) `reg_split_from` on well-formed tables (`R` rows of array width `width`, every row non-empty
+    and not full) raises nothing and returns, row by row, the negated weights with `+1` on the row's own
+    pixel `i/4` — in place when the pixel is among the row's indices (`resM/resS/resW`, first branch),
+    appended at position `size` otherwise -/
+theorem reg_split_from_rows (t : Impl.SplitTables α) (R width : Nat) (hwf : SplitWF t R width) :
+    ∃ t', Impl.regSplitFrom t = .ok t' ∧ t'.mappings.length = R ∧ t'.sizes.length = R
+      ∧ t'.weights.length = R
+      ∧ ∀ i, i < R → t'.mappings.getD i [] = resM t i ∧ t'.sizes.getD i 0 = resS t i
+          ∧ t'.weights.getD i [] = resW t i :=
+  regSplitFrom_ok t R width hwf
+
+/-- (d) the full clause, from the mapper's own cross-point tables: if they are well formed
+    (`4p` rows), with non-negative, in-range, pairwise distinct pixel indices per row (Delaunay
+    simplices), then `ConstantSplit` / `AdaptiveBrightnessSplit` (= `reg_split_from` followed by
+    `pixel_splitted_regularization_matrix_from`, `ω` the scheme's weights) return a `p×p` symmetric
+    strictly positive-definite matrix with
+    `xᵀHx = (ρ₂/2)|x|² + Σ_i ω_i² Σ_{j<4} (x_i − Σ_l w_{kl} x_{m_{kl}})²`, `k = 4i+j`
+    — the squared differences between each pixel's value and the value interpolated at its four
+    cross points -/
+theorem split_scheme_spec (p : Nat) (ρ2 : α) (hρ : 0 < ρ2) (ω : List α) (t : Impl.SplitTables α)
+    (width : Nat) (hwf : SplitWF t (4 * p) width)
+    (hnn : ∀ k, k < 4 * p → ∀ l, l < t.sizes.getD k 0 → 0 ≤ (t.mappings.getD k []).getD l 0)
+    (hR : SplitInRange p (pyTable p t.mappings) t.sizes)
+    (hD : SplitDistinct p (pyTable p t.mappings) t.sizes) :
+    ∃ H, Impl.splitSchemeMatrix ρ2 ω t = .ok H
+      ∧ Dims p H
+      ∧ (∀ a b, entry H a b = entry H b a)
+      ∧ (∀ x : List α, x.length = p →
+          quad H x = (ρ2 / (1 + 1)) * sumSq x
+            + sumRange p fun i => sumRange 4 fun j =>
+                (ω.getD i 0 * ω.getD i 0)
+                  * ((x.getD i 0 - crossDot (pyTable p t.mappings) t.sizes t.weights x (i * 4 + j))
+                    * (x.getD i 0 - crossDot (pyTable p t.mappings) t.sizes t.weights x (i * 4 + j))))
+      ∧ (∀ x : List α, x.length = p → (∃ i, i < p ∧ x.getD i 0 ≠ 0) → 0 < quad H x) :=
+  splitSchemeMatrix_spec p ρ2 hρ ω t width hwf hnn hR hD
+
 /-! ## (e) kernel schemes — partial
 
 Proved: the covariance matrix built by the double loop has entries `k(d_ij) + ρ·[i=j]`, is symmetric,
@@ -339,6 +397,19 @@ theorem block_diag_quad (n : Nat) (B : List (List α)) (hB : Dims n B)
     quad (blockDiag ((n, B) :: rest)) (x ++ y) = quad B x + quad (blockDiag rest) y :=
   blockDiag_cons_quad n B hB rest x y hx
 
+/-- (f) the assembled matrix is symmetric when every object's matrix is -/
+theorem block_diag_symm (objs : List (Nat × List (List α))) (h : AllDims objs)
+    (hs : ∀ o ∈ objs, ∀ a b, entry o.2 a b = entry o.2 b a) (i j : Nat) :
+    entry (blockDiag objs) i j = entry (blockDiag objs) j i :=
+  blockDiag_symm objs h hs i j
+
+/-- (f) the assembled matrix is positive semi-definite when every object's matrix is (the zero block
+    of an unregularized object is), for any number of objects in any order -/
+theorem block_diag_psd (objs : List (Nat × List (List α))) (h : AllDims objs)
+    (hp : ∀ o ∈ objs, ∀ x : List α, x.length = o.1 → 0 ≤ quad o.2 x)
+    (x : List α) (hx : x.length = totalParams objs) : 0 ≤ quad (blockDiag objs) x :=
+  blockDiag_psd objs h hp x hx
+
 /-! ## non-vacuity: concrete instances meeting the hypotheses -/
 
 /-- a 3-pixel chain 0–1–2 (the neighbour table of a 1×3 strip): in range, symmetric, and the constant
@@ -364,6 +435,30 @@ example :
   · intro k hk l l' hl hl' h
     have hk' : k < 8 := by simpa using hk
     interval_cases k <;> simp at hl hl' <;> interval_cases l <;> interval_cases l' <;> simp_all
+
+/-- the hypotheses of `split_scheme_spec` are satisfiable: two pixels, each cross point lying in a
+    "triangle" that reduces to the other pixel (array width 3, one entry per row) -/
+example :
+    let t : Impl.SplitTables ℚ :=
+      { mappings := [[1, -1, -1], [1, -1, -1], [1, -1, -1], [1, -1, -1],
+                     [0, -1, -1], [0, -1, -1], [0, -1, -1], [0, -1, -1]],
+        sizes := [1, 1, 1, 1, 1, 1, 1, 1],
+        weights := [[1, 0, 0], [1, 0, 0], [1, 0, 0], [1, 0, 0],
+                    [1, 0, 0], [1, 0, 0], [1, 0, 0], [1, 0, 0]] }
+    SplitWF t (4 * 2) 3
+    ∧ (∀ k, k < 4 * 2 → ∀ l, l < t.sizes.getD k 0 → 0 ≤ (t.mappings.getD k []).getD l 0)
+    ∧ SplitInRange 2 (pyTable 2 t.mappings) t.sizes
+    ∧ SplitDistinct 2 (pyTable 2 t.mappings) t.sizes := by
+  refine ⟨⟨rfl, rfl, rfl, ?_, ?_, ?_⟩, ?_, ?_, ?_⟩
+  · intro i hi; interval_cases i <;> simp
+  · intro i hi; interval_cases i <;> simp
+  · intro i hi; interval_cases i <;> simp
+  · intro k hk l hl
+    interval_cases k <;> simp at hl <;> subst hl <;> decide
+  · intro k hk l hl
+    interval_cases k <;> simp at hl <;> subst hl <;> decide
+  · intro k hk l l' hl hl' _
+    interval_cases k <;> simp at hl hl' <;> omega
 
 /-- the libm hypotheses of (e) hold for the real functions -/
 example : Real.sqrt 0 = 0 ∧ Real.exp 0 = 1 := ⟨Real.sqrt_zero, Real.exp_zero⟩
